@@ -517,6 +517,136 @@ func raceScenario(rng *rand.Rand, max int, order int, procs int, sizeNext bool) 
 	}
 }
 
+// raceScenarioZ is raceScenario for an element type of size zero, which is what regsync (throttle struct{})
+// and regbot (struct{}) instantiate the queue with: pointers to such elements are not distinct, so
+// nothing in the queue may rely on finding "its own" entry by address.
+func raceScenarioZ(rng *rand.Rand, max int, order int, procs int) {
+	runtime.GOMAXPROCS(procs)
+	defer runtime.GOMAXPROCS(16)
+	q := New(Opts[struct{}]{Max: max})
+	var rel []func()
+	for i := 0; i < max; i++ {
+		d, err := q.Acquire(context.Background(), struct{}{})
+		if err != nil {
+			vviol("acquire-error", err.Error(), nil)
+			return
+		}
+		rel = append(rel, d)
+	}
+	nw := 2 + rng.Intn(2)
+	victim := rng.Intn(nw)
+	type wres struct {
+		done func()
+		err  error
+	}
+	out := make(chan wres, nw)
+	cancels := make([]context.CancelFunc, nw)
+	for i := 0; i < nw; i++ {
+		ctx, cancel := context.WithCancel(context.Background())
+		cancels[i] = cancel
+		go func() {
+			d, err := q.Acquire(ctx, struct{}{})
+			out <- wres{d, err}
+		}()
+	}
+	// wait (on state, not time) until all waiters are parked
+	for spins := 0; ; spins++ {
+		q.mu.Lock()
+		n := len(q.queued)
+		q.mu.Unlock()
+		if n == nw {
+			break
+		}
+		runtime.Gosched()
+		if spins > 50_000_000 {
+			vmu.Lock()
+			vres.Inconclusive = append(vres.Inconclusive, "waiters never parked")
+			vmu.Unlock()
+			return
+		}
+	}
+	switch order {
+	case 0: // cancel then release, back to back
+		cancels[victim]()
+		rel[0]()
+	case 1: // release then cancel
+		rel[0]()
+		cancels[victim]()
+	case 2: // from two goroutines released together
+		var sw sync.WaitGroup
+		start := make(chan struct{})
+		sw.Add(2)
+		go func() { defer sw.Done(); <-start; cancels[victim]() }()
+		go func() { defer sw.Done(); <-start; rel[0]() }()
+		close(start)
+		sw.Wait()
+	}
+	rel = rel[1:]
+	// remaining holders release; remaining waiters are cancelled only after that, so that each of
+	// them must have been admitted: holders released = max, waiters = nw <= 3; with max < nw-1 the later ones are admitted as the earlier ones release
+	for _, d := range rel {
+		d()
+	}
+	got := 0
+	for i := 0; i < nw; i++ {
+		var r wres
+		select {
+		case r = <-out:
+		case <-time.After(20 * time.Second):
+			// decide on state: a waiter is queued although slots are free and nobody holds any
+			q.mu.Lock()
+			a, w := len(q.active), len(q.queued)
+			q.mu.Unlock()
+			if w > 0 && a < max {
+				vviol("zero-size/lost-wakeup", fmt.Sprintf("waiter still queued after all holders released (active=%d queued=%d max=%d, order=%d)", a, w, max, order), map[string]any{"max": max, "order": order, "waiters": nw})
+			} else if w == 0 {
+				// the goroutine is inside Acquire, its context is live, and the queue's own books list no waiter:
+				// nothing can ever wake it
+				vviol("zero-size/waiter-dropped", fmt.Sprintf("a waiter whose context was never cancelled is still blocked in Acquire 20 s after all holders released, and the queue lists no waiter (active=%d queued=%d max=%d, order=%d): another waiter's cancellation removed its entry", a, w, max, order), map[string]any{"max": max, "order": order, "waiters": nw})
+			} else {
+				vmu.Lock()
+				vres.Inconclusive = append(vres.Inconclusive, "race scenario watchdog")
+				vmu.Unlock()
+			}
+			return
+		}
+		if r.err != nil && r.done != nil {
+			vviol("cancelled-acquire-returned-release", "Acquire returned both an error and a release function", nil)
+		}
+		if r.err == nil {
+			got++
+			if r.done == nil {
+				vviol("acquire-nil-release", "Acquire returned nil, nil", nil)
+			} else {
+				r.done()
+			}
+			vcount("zero_size_waiter_admitted", 1)
+		} else {
+			vcount("zero_size_waiter_cancelled", 1)
+		}
+		if nw > max && i == 0 && false {
+			_ = got
+		}
+	}
+	for _, c := range cancels {
+		c()
+	}
+	q.mu.Lock()
+	a, w := len(q.active), len(q.queued)
+	q.mu.Unlock()
+	if a != 0 || w != 0 {
+		vviol("zero-size/quiescent-nonempty", fmt.Sprintf("race scenario (order %d): queue has active=%d queued=%d after everybody finished", order, a, w), map[string]any{"max": max, "order": order})
+	}
+	for k := 0; k < max; k++ {
+		d, _ := q.TryAcquire(context.Background(), struct{}{})
+		if d == nil {
+			vviol("zero-size/slot-lost", fmt.Sprintf("race scenario (order %d): only %d of %d slots can be taken afterwards", order, k, max), map[string]any{"max": max, "order": order})
+			break
+		}
+		defer d()
+	}
+}
+
 func TestVerifC17(t *testing.T) {
 	out := os.Getenv("VERIF_OUT")
 	if out == "" {
@@ -554,6 +684,19 @@ func TestVerifC17(t *testing.T) {
 		vdist[fmt.Sprintf("race/max%d/order%d/procs%d/next%t", max, order, procs, sn)] = true
 		vmu.Unlock()
 		if len(vres.Violations) >= 50 {
+			break
+		}
+	}
+	for i := 0; i < nr/6; i++ {
+		max := 1 + rng.Intn(3)
+		order := i % 3
+		procs := []int{1, 2, 4, 16}[rng.Intn(4)]
+		raceScenarioZ(rng, max, order, procs)
+		vres.Evaluations++
+		vmu.Lock()
+		vdist[fmt.Sprintf("race-zero-size/max%d/order%d/procs%d", max, order, procs)] = true
+		vmu.Unlock()
+		if len(vres.Violations) >= 3 {
 			break
 		}
 	}
